@@ -1,6 +1,6 @@
 (* C02 proofs: every for_each_client backend equals the sequential fold. *)
 From Coq Require Import ZArith List Bool Lia Permutation Sorted Arith.
-From FV Require Import Common.ListX Common.PySem Common.Chunk gen.Gen_for_each_client Model.C02_Model.
+From FV Require Import Common.ListX Common.PySem Common.Chunk Common.C02Lib gen.Gen_for_each_client Model.C02_Model.
 Import ListNotations.
 Local Open Scope Z_scope.
 
@@ -75,6 +75,31 @@ Lemma StronglySorted_skipn {A} (R : A -> A -> Prop) n l : StronglySorted R l -> 
 Proof.
   revert l; induction n as [|n IH]; intros l H; cbn [skipn]; [exact H|].
   destruct l as [|x l]; [constructor|]. inversion H; subst. now apply IH.
+Qed.
+
+(* the generated output-splitting loop (append in a loop, [reverse,] pop / yield) yields,
+   in some order, the flat_map over the lane indices.  Stated up to Permutation: the
+   yield order is not part of the property, so the proof does not depend on whether the
+   code reverses before popping. *)
+Definition emit_flat {Id Out R} (ids : list (option Id)) (mask : list bool) (nb : list Z) (out : list Out)
+    (res : list (list R)) : list (option Id * Out * list R) :=
+  flat_map (fun i =>
+    match nth_error mask i, nth_error ids i, nth_error out i, nth_error nb i with
+    | Some m, Some id, Some o, Some n =>
+        if pmap_skip m then [] else [(id, o, pmap_truncate (lane_results i res) n)]
+    | _, _, _, _ => []
+    end) (seq 0 (length ids)).
+
+Lemma pmap_emit_spec {Id Out R} (ids : list (option Id)) mask nb (out : list Out) (res : list (list R)) :
+  Permutation (pmap_emit ids mask nb out res) (emit_flat ids mask nb out res).
+Proof.
+  unfold pmap_emit, emit_flat. cbv zeta. rewrite fold_left_append_flat_map. cbn [app].
+  rewrite Nat2Z.id, pop_yield_all.
+  erewrite map_ext; [rewrite map_id|intros [[a b] c]; reflexivity].
+  repeat rewrite <- Permutation_rev.
+  rewrite py_range_0 by lia. rewrite Nat2Z.id.
+  rewrite flat_map_concat_map, map_map, <- flat_map_concat_map.
+  apply Permutation_refl'. apply flat_map_ext_in'. intros i _. rewrite !Nat2Z.id. reflexivity.
 Qed.
 
 (* ------------------------------------------------------------------------ *)
@@ -334,10 +359,16 @@ Proof.
   rewrite nth_error_app2 in H by exact Hl. apply nth_error_In in H. apply repeat_spec in H. discriminate.
 Qed.
 
+Lemma emit_block_flat sh (blk : @block Id Cin B) :
+  Permutation (emit_block init step final zero_r sh blk)
+    (let (p_out, p_res) := run_block init step final zero_r sh blk in
+     emit_flat (blk_id blk) (blk_mask blk) (blk_nb blk) p_out p_res).
+Proof. unfold emit_block. destruct (run_block init step final zero_r sh blk). apply pmap_emit_spec. Qed.
+
 (* one block: exactly the real clients' sequential results, nothing for padding *)
 Lemma emit_make_block sh D (blk : list pclient) c0 rest :
   blk = c0 :: rest -> Forall (fun c => nbatches c <= nbatches c0) blk ->
-  emit_block init step final zero_r sh (make_block zero_b zero_cin D blk) = map (run_pc sh) blk.
+  Permutation (emit_block init step final zero_r sh (make_block zero_b zero_cin D blk)) (map (run_pc sh) blk).
 Proof.
   intros E Hmax. unfold make_block.
   assert (Epad : pad_block zero_cin D blk =
@@ -353,7 +384,9 @@ Proof.
   assert (Hmax' : Forall (fun c => nbatches c <= nbatches c0) pb).
   { rewrite Hpb. apply Forall_app. split; [exact Hmax|]. apply Forall_forall. intros c Hc.
     apply repeat_spec in Hc. subst c. pose proof (nbatches_nonneg c0). unfold nbatches at 1, padc. cbn. lia. }
-  unfold emit_block, run_block. cbn [blk_id blk_mask blk_nb blk_mb blk_cin].
+  rewrite emit_block_flat.
+  match goal with |- Permutation ?a ?b => assert (Heq : a = b); [|rewrite Heq; reflexivity] end.
+  unfold emit_flat, run_block. cbn [blk_id blk_mask blk_nb blk_mb blk_cin].
   rewrite map_map.
   destruct (block_run_spec pb c0 _ (fun c => init sh (pc_cin c)) Epb Hmax') as [H1 H2].
   destruct (fold_left p_loop_body (masked_batches zero_b pb) (map (fun c => init sh (pc_cin c)) pb, []))
@@ -378,26 +411,27 @@ Qed.
 
 Lemma blocks_emit sh (D : nat) : (1 <= D)%nat -> forall fuel (l : list pclient),
   StronglySorted (desc nbatches) l -> (length l <= fuel)%nat ->
-  flat_map (emit_block init step final zero_r sh) (map (make_block zero_b zero_cin (Z.of_nat D)) (chunks_f fuel D l))
-  = map (run_pc sh) l.
+  Permutation
+    (flat_map (emit_block init step final zero_r sh) (map (make_block zero_b zero_cin (Z.of_nat D)) (chunks_f fuel D l)))
+    (map (run_pc sh) l).
 Proof.
   intros HD. induction fuel as [|f IH]; intros l Hs Hl.
   - destruct l; [reflexivity|cbn in Hl; lia].
   - cbn [chunks_f]. destruct l as [|x l']; [reflexivity|].
     cbn [map flat_map].
-    rewrite IH; [| now apply StronglySorted_skipn | rewrite skipn_length; cbn [length] in *; lia].
     transitivity (map (run_pc sh) (firstn D (x :: l')) ++ map (run_pc sh) (skipn D (x :: l'))).
     2:{ rewrite <- map_app, firstn_skipn. reflexivity. }
-    f_equal.
-    destruct D as [|d]; [lia|]. cbn [firstn].
-    apply (emit_make_block sh _ _ x (firstn d l')); [reflexivity|].
-    inversion Hs as [|? ? _ Hf]; subst. constructor; [lia|]. apply Forall_firstn. exact Hf.
+    apply Permutation_app.
+    + destruct D as [|d]; [lia|]. cbn [firstn].
+      apply (emit_make_block sh _ _ x (firstn d l')); [reflexivity|].
+      inversion Hs as [|? ? _ Hf]; subst. constructor; [lia|]. apply Forall_firstn. exact Hf.
+    + apply IH; [now apply StronglySorted_skipn | rewrite skipn_length; cbn [length] in *; lia].
 Qed.
 
 Lemma pmap_run_sorted sh D (clients : list client) : 1 <= D ->
-  pmap_run init step final zero_r zero_b zero_cin D sh clients
-  = map (run_pc sh)
-        (sort_by nbatches blockify_sort_reverse (map (fun c : client => let '(id, bs, cin) := c in (Some id, bs, cin)) clients)).
+  Permutation (pmap_run init step final zero_r zero_b zero_cin D sh clients)
+    (map (run_pc sh)
+        (sort_by nbatches blockify_sort_reverse (map (fun c : client => let '(id, bs, cin) := c in (Some id, bs, cin)) clients))).
 Proof.
   intros HD. unfold pmap_run, blockify, blockify_blocks. cbv zeta.
   rewrite slices_are_chunks0 by exact HD. unfold chunks.
@@ -834,5 +868,7 @@ Lemma model_anchored :
   backend_choice_thread_local = true /\ backend_get_installs_default = true /\
   ctx_saves_field = true /\ ctx_sets_in_try = true /\ ctx_restores_old_in_finally = true /\
   jit_init_copies = true /\ jit_init_donates = [] /\ jit_step_donates = [0] /\ jit_final_donates = [1] /\
-  blockify_sort_reverse = true.
+  blockify_sort_reverse = true /\ jit_run_is_sequential_loop = true /\ debug_run_is_sequential_loop = true /\
+  api_binds_via_get = true /\ api_passes_step_results_through = true /\ api_drops_unit_step_results = true /\
+  pmap_inputs_are_stacked_copies = true.
 Proof. repeat split; reflexivity. Qed.
